@@ -63,6 +63,16 @@ PREFS["10"] = """ (A) behaviour that differs only in a particular BUILD or ENVIR
  (E) an interaction of THREE ordinary features that must meet (e.g. a named parameter + a multi-word name + a null value).
 """
 
+BENIGN_EXTRA = {"b10": """In THIS round the change must contain at least two of the following, all of them CORRECT (they must not change any result):
+a cache or memo (thread-local or process-wide, behind a lock) keyed by EVERYTHING the cached result depends on, with a small capacity
+and correct eviction; `debug_assert!` / `debug_assert_eq!` statements whose arguments have NO side effects; a `HashMap` / `HashSet`
+used internally whose iteration order never reaches a result (sort before output, or use it for lookups only); a fast path for short
+/ ASCII / small inputs next to the general path, both giving the same result; a per-thread scratch buffer that is cleared before every
+use; reading an environment variable (e.g. `DMNTK_TRACE`) that only switches diagnostic printing to stderr; an object pool whose
+objects are fully reset when taken. The point: code that has state, build-dependent statements and environment reads, yet is
+observably identical in debug and release builds, in any environment, on any thread and after any history.
+"""}
+
 BRIEF = """# Brief: one realistic, hard-to-notice change that breaks a stated property
 
 You are helping to test a verification tool by mutation: I need ONE realistic change to the Rust repository checked out in
@@ -198,6 +208,7 @@ an unwrap by proper error propagation where the error cannot happen. 40-200 chan
 What you must NOT change: any value, acceptance / rejection, printed form of a FEEL value, JSON body or state that the property
 speaks about. Error and diagnostic TEXTS are not part of the property (only whether there is an error) - changing them is welcome.
 
+{extra}
 ## Facts about this repository you need
 
 * Cargo workspace in which every `dmntk-*` crate depends on the crates.io (vendored) copy of its siblings: a change in crate X is
@@ -240,7 +251,7 @@ for pid in ids:
     if not isinstance(anchors, str):
         anchors = json.dumps(anchors, ensure_ascii=False)
     txt = (BENIGN if rnd.startswith("b") else BRIEF).format(wt=wt, work=work, id=pid, title=p["title"], statement=p["statement"], quantifier=(p["quantifier"].get("text") if isinstance(p["quantifier"], dict) else p["quantifier"]),
-                       why=p["why_tests_cant"], anchors=anchors, rnd=rnd, prefs=PREFS.get(rnd, PREFS["8"]),
+                       why=p["why_tests_cant"], anchors=anchors, rnd=rnd, prefs=PREFS.get(rnd, PREFS["8"]), extra=BENIGN_EXTRA.get(rnd, ""),
                        used=", ".join(sorted(used[pid])) or "(none)",
                        tried="\n".join("  - " + t for t in tried.get(pid, [])) or "  (none)")
     open(os.path.join(wt, "BRIEF.md"), "w").write(txt)
